@@ -182,9 +182,10 @@ def run_generic(prop, tier, seed, t0):
         post(work, meta, extra)
     for i, txt in enumerate(extra.pop('_violations', [])):
         violations.append(vlib.save_witness(prop, 100 + i, [txt], 'json'))
-    vlib.write_evidence(prop, tier, seed, t0, states, trans, nhist, samples, extra,
-                        violations=len(violations), assumptions=P.get('assumptions', []),
-                        exhaustive=False)
+    if not prop.startswith('X'):      # extra (unregistered) checks leave no evidence file
+        vlib.write_evidence(prop, tier, seed, t0, states, trans, nhist, samples, extra,
+                            violations=len(violations), assumptions=P.get('assumptions', []),
+                            exhaustive=False)
     return finish(prop, violations, known, allnotes['unconfirmed'])
 
 
@@ -515,7 +516,9 @@ PROPS['C12'] = dict(
 # --------------------------------------------------------------------------
 # C13 mdiff chunks
 PROPS['C13'] = dict(
-    mc=[dict(module='DiffChunksMC', cfg=('DiffChunksMC_q.cfg', 'DiffChunksMC_t.cfg'), emit=True, workers=8)],
+    mc=[dict(module='DiffChunksMC', cfg=('DiffChunksMC_q.cfg', 'DiffChunksMC_t.cfg'), emit=True, workers=8),
+        dict(module='DiffUnify', cfg='DiffUnify_fixed.cfg', workers=8),
+        dict(module='DiffUnify', cfg='DiffUnify_asis.cfg', workers=2, expect_violation=True)],
     trace=dict(module='DiffChunksTrace', cfg='DiffChunksTrace.cfg', stack='256m'),
     assumptions=['TLC; DiffChunks.tla stage conditions as transcription of the property; ModelNew transcribes mdiff.New',
                  'exhaustive over the TLC-enumerated space of pairs x all context sizes 0..MaxN; seeded random beyond (incl. n larger than every gap)'])
@@ -612,3 +615,8 @@ PROPS['C20'] = dict(
     assumptions=['TLC; Bytes.tla: byte-by-byte definitions, Trunc postconditions, preorder laws; transcription of the word-at-a-time loops of mbits.go with their access sets',
                  'out-of-bounds WRITES are seen through guard bytes in the recorded memory images; out-of-bounds READS through PROT_NONE pages on either side of the slice (a fault is recorded as a panic) - an observation instrument outside TLC',
                  'exhaustive over all zero patterns up to the length bound at all 8 alignments, all strings of up to 3 (quick) / 4 (thorough) units at every cut point, the full 259 x 259 CompareNatural table; seeded random beyond'])
+
+# --------------------------------------------------------------------------
+# X01: not a listed property - specification growth (compare, value, mstr.Lines/Split, rest of slice)
+PROPS['X01'] = dict(mc=[], trace=dict(module='ExtrasTrace', cfg='ExtrasTrace.cfg'),
+                    assumptions=['unregistered extra check: parts of the library no listed property covers'])
